@@ -66,6 +66,12 @@ def expiry_grid():
                            {'m': 'get', 'now': 1000 + gap + 10 ** 9, 'k': 'forever'}, {'m': 'len', 'now': 1000 + gap + 10 ** 9}]
                     hists.append({'cfg': {'mfs': 8, 'policy': 'lrs', 'cull': cull, 'stats': 0, 'proto': 5, 'disk': 'pickle',
                                           'limN': 2 ** 30, 'limD': 1, 'tagidx': 0}, 'ops': ops, 'state_every': 1})
+                    if gap == 6 and cull == 0:
+                        # the same with a membership test first, at the same instant: whatever it answers at the open
+                        # instant now == expiry, the call that follows must agree with it
+                        ops2 = ops[:2] + [{'m': 'contains', 'now': 1000 + gap, 'k': 'k'}] + ops[2:]
+                        hists.append({'cfg': {'mfs': 8, 'policy': 'lrs', 'cull': cull, 'stats': 0, 'proto': 5, 'disk': 'pickle',
+                                              'limN': 2 ** 30, 'limD': 1, 'tagidx': 0}, 'ops': ops2, 'state_every': 1})
     return hists
 
 
@@ -141,6 +147,72 @@ def lazy_cull_check(hist, io):
     return None
 
 
+def expiry_during_wait_probe():
+    """an item that expires WHILE a call waits for the write lock (retry=True, the lock held by another
+    client, the clock advancing with every busy attempt): when the call finally runs, the item's expiry
+    time has passed - and another client may already have seen it expired - so it must be treated as
+    expired: not touched back to life, not incremented, not reported present to add, not pulled / peeked /
+    popped as a live item."""
+    import os
+    import shutil
+    import sqlite3
+    import tempfile
+    import diskcache
+    from impl import Env, scratch_root
+    env = Env.get()
+    root = scratch_root()
+    calls = [
+        ('touch', lambda c: c.touch('e', 50, retry=True), False, 'touch revived'),
+        ('add', lambda c: c.add('e', 9, retry=True), True, 'add treated as present'),
+        ('incr', lambda c: c.incr('e', retry=True), 1, 'incr incremented'),
+        ('pop', lambda c: c.pop('e', retry=True), None, 'pop returned'),
+        ('pull', lambda c: c.pull(retry=True), (500000000000001, 'live'), 'pull delivered'),
+        ('peek', lambda c: c.peek(retry=True), (500000000000001, 'live'), 'peek showed'),
+    ]
+    bad = []
+    for name, fn, want, verb in calls:
+        d = tempfile.mkdtemp(prefix='c4w-', dir=root)
+        try:
+            env.rec.enabled = False
+            env.clock.t = 1000
+            c = diskcache.Cache(d, timeout=0)
+            c.set('e', 5, expire=2)
+            c.push('old', expire=2)
+            c.push('live')
+            env.rec.enabled = True
+            con = sqlite3.connect(os.path.join(d, 'cache.db'), timeout=0, isolation_level=None)
+            con.execute('BEGIN IMMEDIATE')
+            busy = [0]
+
+            def hook(kind, detail, con=con, busy=busy):
+                if kind == 'sql' and detail == 'BEGIN':
+                    busy[0] += 1
+                    env.clock.t += 1              # time passes while the call waits
+                    if busy[0] == 4:
+                        con.execute('ROLLBACK')
+            env.rec.on_action = hook
+            env.rec.reset()
+            try:
+                try:
+                    got = fn(c)
+                except Exception as e:  # noqa
+                    got = '!' + type(e).__name__
+            finally:
+                env.rec.on_action = None
+                con.close()
+            if got != want:
+                bad.append('an item stored at 1000 with expire=2; %s(retry=True) waited for the lock until %d and then %s the expired item: returned %r, expected %r' % (
+                    name, env.clock.t, verb, got, want))
+            c.close()
+        except Exception as e:  # noqa
+            bad.append('expiry-during-wait probe (%s) raised %s: %s' % (name, type(e).__name__, str(e)[:100]))
+        finally:
+            env.rec.on_action = None
+            env.rec.enabled = True
+            shutil.rmtree(d, ignore_errors=True)
+    return bad
+
+
 def acceptor(hist, io):
     err = refdict.accept(hist, io, scope=SCOPE)
     if err:
@@ -164,6 +236,13 @@ def run(tier, seed, rng, known, replay):
     hists += [ttl_history(rng, 300) for _ in range(n_long)]
     hists += [mass_expiry(rng, rng.choice([101, 205, 260])) for _ in range(n_mass)]
     r = base.check_histories('C04', hists, ('result', 'state'), acceptor=acceptor, known=known)
+    for v_ in expiry_during_wait_probe():
+        k_ = base.match_known(known, {'cfg': {}}, None, v_)
+        if k_ is not None:
+            if k_['what'] not in r['known']:
+                r['known'].append(k_['what'])
+        elif len(r['violations']) < 4:
+            r['violations'].append({'replay': {'property': 'C04', 'kind': 'expiry-during-wait', 'acceptor': v_}, 'found_input': True, 'what': v_})
     dist, distinct = base.op_distribution(hists, r['impl_out'])
     return {
         'evaluations': sum(len(h['ops']) for h in hists), 'distinct_nontrivial': distinct,
